@@ -69,3 +69,43 @@ fn k_rings_bbox_all_rings() {
     assert!(b.min.z == -75.5 && b.max.z == 40.0 && b.min.m == 5.0 && b.max.m == 99.0);
     assert!(b.min.x == 0.0 && b.max.x == 8.0 && b.min.y == 0.0 && b.max.y == 9.0);
 }
+
+/// C16 (orientation decides the role): on closed triangles whose coordinates are small integers times a power of
+/// two (so that the library's floating-point shoelace sum is exact, at unit scale and at a scale where the area is
+/// far below f64::EPSILON) the ring type is `InnerRing` exactly when the signed area is negative.  BOUNDED domain.
+#[kani::proof]
+#[kani::unwind(8)]
+fn k_rings_orientation_sign() {
+    let tiny = f64::from_bits(0x3d70_0000_0000_0000); // 2^-40
+    let s: f64 = if kani::any() { 1.0 } else { tiny };
+    let c: [i8; 6] = kani::any();
+    kani::assume(c.iter().all(|v| *v >= -8 && *v <= 8));
+    let p = |i: usize| Point::new(c[2 * i] as f64 * s, c[2 * i + 1] as f64 * s);
+    let ring = [p(0), p(1), p(2), p(0)];
+    let mut a2 = 0i64;
+    let mut i = 0;
+    while i < 3 {
+        let (x0, y0) = (c[2 * (i % 3)] as i64, c[2 * (i % 3) + 1] as i64);
+        let (x1, y1) = (c[2 * ((i + 1) % 3)] as i64, c[2 * ((i + 1) % 3) + 1] as i64);
+        a2 += (x1 - x0) * (y1 + y0);
+        i += 1;
+    }
+    let t = crate::record::ring_type_from_points_ordering(&ring);
+    assert!((t == crate::record::RingType::InnerRing) == (a2 < 0));
+    kani::cover!(a2 < 0 && s != 1.0);
+    kani::cover!(a2 > 0);
+}
+
+/// quick companion of `k_rings_orientation_sign`: four concrete closed triangles, at unit scale and at scale 2^-40
+/// (signed area about 1e-23, far below f64::EPSILON): counter-clockwise is an inner ring, clockwise an outer ring
+#[kani::proof]
+#[kani::unwind(6)]
+fn k_rings_orientation_concrete() {
+    let tiny = f64::from_bits(0x3d70_0000_0000_0000); // 2^-40
+    for s in [1.0f64, tiny] {
+        let ccw = [Point::new(0.0, 0.0), Point::new(4.0 * s, 0.0), Point::new(4.0 * s, 3.0 * s), Point::new(0.0, 0.0)];
+        let cw = [Point::new(0.0, 0.0), Point::new(4.0 * s, 3.0 * s), Point::new(4.0 * s, 0.0), Point::new(0.0, 0.0)];
+        assert!(crate::record::ring_type_from_points_ordering(&ccw) == crate::record::RingType::InnerRing);
+        assert!(crate::record::ring_type_from_points_ordering(&cw) == crate::record::RingType::OuterRing);
+    }
+}
